@@ -6,7 +6,9 @@ import (
 
 	"github.com/zenon-network/go-zenon/chain/nom"
 	"github.com/zenon-network/go-zenon/common/types"
+	"github.com/zenon-network/go-zenon/vm/constants"
 	"github.com/zenon-network/go-zenon/vm/embedded/definition"
+	"github.com/zenon-network/go-zenon/wallet"
 
 	"verif/sim/golden"
 	"verif/sim/nomsim"
@@ -47,6 +49,12 @@ func searchNonce(t *tape.Tape, addr types.Address, prev types.Hash, d uint64, tr
 var interestingDifficulties = []uint64{1, 2, 1499, 1500, 1501, 3000, 31500000 - 1, 31500000, 94500 * 1500, 94500*1500 + 1,
 	1 << 32, 1 << 40, 1<<62 - 1, 1 << 62, 1<<63 - 1, 1 << 63, 1<<63 + 12345, 1<<64 - 1}
 
+type c12Nonce struct {
+	prev  types.Hash
+	nonce [8]byte
+	d     uint64
+}
+
 func runC12(r *simrt.Run) {
 	r.WatchLocks() // a lock of the node that is never released is a violation, not a hang
 	t := r.T
@@ -63,10 +71,34 @@ func runC12(r *simrt.Run) {
 		slots = 30 + t.Choose(200)
 	}
 	w.AckDepth = func() int { return []int{0, 0, 1, 3}[t.Choose(4)] }
+	// half of the runs let fusions expire after a few momentums: what is fused for an account SHRINKS while
+	// it has unconfirmed blocks that were paid with it
+	shrink := t.Bool()
+	if shrink {
+		o := constants.FuseExpiration
+		constants.FuseExpiration = uint64(1 + t.Choose(6))
+		w.OnClose(func() { constants.FuseExpiration = o })
+		r.Probe("knob-short-fusion-expiry")
+	}
+	var lastUser *wallet.KeyPair
 
 	tried, accepted, powAccepted := 0, 0, 0
+	lastNonce := map[types.Address]c12Nonce{}
 	attempt := func() {
 		u := w.Users[t.Choose(len(w.Users))]
+		if lastUser != nil && t.Choose(3) == 0 {
+			u = lastUser // several blocks of one account inside one slot
+		}
+		lastUser = u
+		if shrink && t.Choose(4) == 0 {
+			// the account cancels one of its fusions (own entries of this run, by id)
+			if list, _, err := definition.GetFusionInfoListByOwner(p.Chain.GetFrontierMomentumStore().GetAccountStore(types.PlasmaContract).Storage(), u.Address); err == nil && len(list) > 0 {
+				e := list[t.Choose(len(list))]
+				if _, err := w.Send(p, u.Address, types.PlasmaContract, types.ZnnTokenStandard, big.NewInt(0), definition.ABIPlasma.PackMethodPanic(definition.CancelFuseMethodName, e.Id)); err == nil {
+					r.Probe("cancel-fuse-sent")
+				}
+			}
+		}
 		// a user with little or no fused plasma is more interesting half of the time
 		accounts := oracle.Accounts(p.Mgr.Frontier())
 		tmpl := &nom.AccountBlock{Address: u.Address}
@@ -105,6 +137,18 @@ func runC12(r *simrt.Run) {
 		fr := p.Chain.GetFrontierAccountStore(u.Address).Identifier()
 		tmpl.PreviousHash, tmpl.Height = fr.Hash, fr.Height+1
 		ack := p.Frontier().Identifier()
+		if depth := uint64([]int{0, 0, 1, 3, 6}[t.Choose(5)]); depth > 0 && ack.Height > depth+1 {
+			// the block acknowledges an older momentum (not older than its predecessor's): what is fused
+			// for the account, and what counts as unconfirmed, is judged against THAT momentum
+			target := ack.Height - depth
+			if prev, err := p.Chain.GetFrontierAccountStore(u.Address).Frontier(); err == nil && prev != nil && prev.MomentumAcknowledged.Height > target {
+				target = prev.MomentumAcknowledged.Height
+			}
+			if m, err := p.Chain.GetFrontierMomentumStore().GetMomentumByHeight(target); err == nil && m != nil {
+				ack = m.Identifier()
+				r.Probe("attempt-acknowledging-older-momentum")
+			}
+		}
 		tmpl.MomentumAcknowledged = ack
 		ms := p.Chain.GetMomentumStore(ack)
 		base, baseOK := oracle.GoldenBaseCost(ms, tmpl, abis)
@@ -170,6 +214,20 @@ func runC12(r *simrt.Run) {
 			d = t.Uint64()
 		}
 		tmpl.FusedPlasma, tmpl.Difficulty = fused, d
+		reused := false
+		if ln, ok := lastNonce[u.Address]; ok && ln.prev == tmpl.PreviousHash && t.Choose(3) == 0 {
+			// the nonce of an earlier attempt on the same previous block (valid for a small difficulty)
+			// comes back under a large claimed difficulty
+			tmpl.Nonce.Data = ln.nonce
+			d = []uint64{base * golden.DifficultyPerPlasma, ln.d * uint64(2+t.Choose(1000)), 1 << 40}[t.Choose(3)]
+			if d == 0 {
+				d = 1 << 30
+			}
+			tmpl.Difficulty = d
+			validNonce = golden.PoWOK(u.Address, tmpl.PreviousHash, tmpl.Nonce.Data, d)
+			reused = true
+			r.Probe("attempt-with-reused-nonce")
+		}
 		if t.Choose(3) == 0 {
 			// the informational accounting fields arrive pre-filled (they are outside hash and signature)
 			tmpl.BasePlasma = uint64(1 + t.Choose(int(base)+1))
@@ -178,13 +236,16 @@ func runC12(r *simrt.Run) {
 			}
 			r.Probe("attempt-with-prefilled-plasma-fields")
 		}
-		if d != 0 {
+		if d != 0 && !reused {
 			if d <= 200000 && t.Choose(4) != 0 {
 				tmpl.Nonce.Data, validNonce = searchNonce(t, u.Address, tmpl.PreviousHash, d, int(8*d))
 			} else {
 				copy(tmpl.Nonce.Data[:], t.Bytes(8))
 				validNonce = golden.PoWOK(u.Address, tmpl.PreviousHash, tmpl.Nonce.Data, d)
 			}
+		}
+		if validNonce && !reused && d != 0 && d <= 200000 {
+			lastNonce[u.Address] = c12Nonce{prev: tmpl.PreviousHash, nonce: tmpl.Nonce.Data, d: d}
 		}
 		tried++
 		b, err := w.Submit(p, tmpl)
